@@ -353,6 +353,10 @@ def check(ctx, rep):
     # another thread is polling gets its id back on the ready queue (shared with C01 R01.e); R08.i every wake does the whole job
     rep.rule('R08.h', 'the executor loops run to quiescence and re-queue a task that is out of its slot', floor=6)
     c01.check_executor_loops(rep, core, rid='R08.h')
+    # R08.k: "when all calls have returned the core is quiescent": a caller that runs tasks (its own or ones another thread made runnable)
+    # looks at the event channel again before it returns (shared with C03 R03.f; seeded: a trailing run_all after the event loop, which
+    # only finds work when a second thread queued some)
+    c03.check_process_looks(rep, 'R08.k', core)
     from rules.props import c05 as _c05
     rep.rule('R08.i', 'every way of waking a task waker enqueues the task, marks it woken and wakes the parent, on every path', floor=5)
     _c05.check_wake_impls(rep, 'R08.i', core, None)
